@@ -469,7 +469,7 @@ def rule_subseq_search(ctx, m):
     # cache hit returns the first k of a list computed for a larger k, and records nothing stale
     first = al.body[0]
     okc = first.k == 'if' and first.then and first.then[0].k == 'return' and first.then[0].value == ('idx', ('attr', ('var', 'self'), 'kbest_distances'), ('slice', None, ('var', 'k'), None)) \
-        and ('bin', '<=', ('var', 'k'), ('attr', ('var', 'self'), 'k')) in list(walk_expr(first.cond))
+        and _implies_le(first.cond, ('var', 'k'), ('attr', ('var', 'self'), 'k'))
     ctx.check(okc, 'R-PATH', file, 'SubsequenceSearch.align', 'cache reuse', 'cached results may be reused only when k <= the k they were computed for, and only their first k entries', al.line)
     setk = [s for s in al.body if s.k == 'assign' and s.target == ('attr', ('var', 'self'), 'k') and s.value == ('var', 'k')]
     # the result view clamps the requested k to the k the cached result was computed for: k_eff = min(k, ss.k)
@@ -495,6 +495,21 @@ def rule_subseq_search(ctx, m):
               'the number of matches shown is min(requested k, k the stored result was computed for): the stored k replaces the requested one only when the request is LARGER; found %s'
               % found, ini.line)
     ctx.check(bool(setk), 'R-PATH', file, 'SubsequenceSearch.align', 'k recorded', 'a fresh search must record the k it was computed for (self.k = k)', al.line)
+
+
+def _implies_le(cond, a, b):
+    """Some conjunct of cond states a <= b (as `a <= b`, `b >= a`, or `not (a > b)` / `not (b < a)`)."""
+    from .kern import _conj
+    for c in _conj([cond]):
+        neg = False
+        while c[0] == 'un' and c[1] == 'not':
+            c, neg = c[2], not neg
+        o = orient(c, a)
+        if o is None or o[2] != b:
+            continue
+        if (not neg and o[0] == '<=') or (neg and o[0] == '>'):
+            return True
+    return False
 
 
 def _continuation(stmts, target):
@@ -548,8 +563,9 @@ def rule_hierarchical(ctx, m):
             t = s.body[0].target[2]
             if s.lo == ('num', 0) and s.hi == i2 and t == ('tuple', (('var', s.var), i2)):
                 rows = True
-            if s.lo == ('bin', '+', i2, ('num', 1)) and t == ('tuple', (i2, ('var', s.var))) and \
-                    s.hi in (('call', ('var', 'len'), (('var', 'series'),), ()), ('var', 'nb_series')):
+            nlen_ = ('call', ('var', 'len'), (('var', 'series'),), ())
+            nvars_ = {t_.target for t_ in walk_stmts(f.body) if t_.k == 'assign' and t_.target[0] == 'var' and t_.value == nlen_}
+            if s.lo == ('bin', '+', i2, ('num', 1)) and t == ('tuple', (i2, ('var', s.var))) and (s.hi == nlen_ or s.hi in nvars_):
                 cols = True
     ctx.check(rows and cols, 'R-PATH', file, 'Hierarchical.fit', 'blanking of the merged series',
               'after merging i2 into i1, column i2 above the diagonal (rows 0..i2-1) and row i2 right of it (columns i2+1..n-1) must be blanked', loop.line)
@@ -573,19 +589,22 @@ def rule_hierarchical(ctx, m):
     seed = [s for s in walk_stmts(loop.body) if s.k == 'assign' and s.target == ('idx', ('var', 'cluster_idx'), ('var', 'i1')) and s.value == ('set', (('var', 'i1'),))]
     ctx.check(len(upd) == 1 and len(dele) == 1 and len(addi) == 1 and len(seed) == 1, 'R-PATH', file, 'Hierarchical.fit', 'cluster bookkeeping',
               'a merge must move the members of i2 (or i2 itself) into cluster i1 and remove key i2', loop.line)
-    # epilogue: singletons
+    # epilogue: singletons -- on the paths of the final loop: a series that is not deleted and not yet a key becomes {i}
+    from ..symexec import deep_events
     epi = f.body[f.body.index(loop) + 1:]
-    ok = False
     nlen = ('call', ('var', 'len'), (('var', 'series'),), ())
-    nvars = {t.target for t in f.body if t.k == 'assign' and t.target[0] == 'var' and t.value == nlen}
-    for s in epi:
-        if s.k == 'for' and s.lo == ('num', 0) and (s.hi == nlen or s.hi in nvars):
-            for t in s.body:
-                if t.k == 'if' and t.cond == ('bin', 'notin', ('var', s.var), ('var', 'deleted')):
-                    for u in t.then:
-                        if u.k == 'if' and u.cond == ('bin', 'notin', ('var', s.var), ('var', 'cluster_idx')) and \
-                                any(v.k == 'assign' and v.target == ('idx', ('var', 'cluster_idx'), ('var', s.var)) and v.value == ('set', (('var', s.var),)) for v in u.then):
-                            ok = True
+    nvars = {t.target for t in walk_stmts(f.body) if t.k == 'assign' and t.target[0] == 'var' and t.value == nlen}
+    ok = False
+    for ev, lps in deep_events(epi):
+        if ev[0] != 'store' or len(lps) != 1 or lps[0].k != 'for':
+            continue
+        lp_ = lps[0]
+        iv_ = ('var', lp_.var)
+        if not (lp_.lo == ('num', 0) and (lp_.hi == nlen or lp_.hi in nvars)):
+            continue
+        if ev[2] == ('idx', ('var', 'cluster_idx'), iv_) and ev[3] == ('set', (iv_,)):
+            conds = set(ev[1])
+            ok = ('bin', 'notin', iv_, ('var', 'deleted')) in conds and ('bin', 'notin', iv_, ('var', 'cluster_idx')) in conds
     ctx.check(ok, 'R-PATH', file, 'Hierarchical.fit', 'singletons', 'every series that was never merged away must end up as (at least) a singleton cluster keyed by itself', f.line)
     # tree variant
     pm, tinit = _func(m, mod, 'HierarchicalTree.__init__')
